@@ -64,3 +64,20 @@ package helpers
 //@   ensures issued:    ghost.mutSeq > old(ghost.apiSeq)
 //@   ensures subscribed_first: ghost.subSeq > old(ghost.apiSeq) && ghost.subSeq < ghost.mutSeq
 //@   ensures canceled:  ghost.mutRes == 1 ==> !r
+
+// ---- C16: name <-> index conversion used by the debugger's parse step ----
+// A name outside the index maps to -1; an index outside the list (or -1) maps to
+// a placeholder name, never to a read outside the list.
+//@ func StatesToIndexes(allStates am.S, states am.S) (r []int)
+//@   props C16
+//@   ensures len: len(r) == len(states)
+//@   ensures def: forall k int :: 0 <= k && k < len(states) ==> r[k] == index(allStates, states[k])
+//@   loop 1 invariant len: len(indexes) == len(states)
+//@   loop 1 invariant def: forall k int :: 0 <= k && k < idx1 ==> indexes[k] == index(allStates, states[k])
+//@ func IndexesToStates(allStates am.S, indexes []int) (r am.S)
+//@   props C16
+//@   requires lo:  forall k int :: 0 <= k && k < len(indexes) ==> indexes[k] >= -1
+//@   ensures len: len(r) == len(indexes)
+//@   ensures def: forall k int :: 0 <= k && k < len(indexes) && 0 <= indexes[k] && indexes[k] < len(allStates) ==> r[k] == allStates[indexes[k]]
+//@   loop 1 invariant len: len(states) == len(indexes)
+//@   loop 1 invariant def: forall k int :: 0 <= k && k < idx1 && 0 <= indexes[k] && indexes[k] < len(allStates) ==> states[k] == allStates[indexes[k]]
